@@ -756,6 +756,46 @@ fn big_train(out: &mut Out, rng: &mut Rng) {
     feed(out, &mut rx, &end.ser(), vec![]);
     probe(out, &mut rx, rng, 64, 9, size + 6);
     rx.ev_drain(out);
+    // a genuine train of 65533 bytes for everybody (total length exactly 0xFFFF) into which one or two foreign
+    // bytes were spliced, with a trailer that matches the bytes received: the announced length decides
+    for extra in [1usize, 2] {
+        let mut rx = mk_rx(out, "faults", "big_storage_ffff", 1, size, 1, std_mgr(), false);
+        let pdu: Vec<u8> = (0..65533usize).map(|i| (i * 7 + i / 251) as u8).collect();
+        let mut t = train(&pdu, &[], false, ptype, 11, &[4090, 4094, 4094, 4094, 4094, 4094, 4094, 4094, 4094, 4094, 4094, 4094, 4094, 4094, 4094, 4094]);
+        let mut received = pdu.clone();
+        let last = t.len() - 1;
+        for _ in 0..extra {
+            // (spliced into the end packet: the intermediate fragments are already as long as a packet can be)
+            received.push(0xEE);
+            t[last].payload.push(0xEE);
+        }
+        let tl = 0xFFFFu16;
+        t[last].crc = crc32_mpeg(&[&tl.to_be_bytes(), &ptype.to_be_bytes(), &[], &received]);
+        for p in &t {
+            feed(out, &mut rx, &p.ser(), vec![]);
+        }
+        probe(out, &mut rx, rng, 64, 11, size + 7);
+        rx.ev_drain(out);
+    }
+    // a genuine train near 64 KiB with a large duplicate in the middle (the 16-bit count of received bytes cannot
+    // hold it: refused), framed by a packet that leaves a label and a packet that re-uses it; then the rest of the
+    // genuine train
+    {
+        let mut rx = mk_rx(out, "faults", "big_storage_dup", 2, size, 2, std_mgr(), false);
+        let pdu: Vec<u8> = (0..65530usize).map(|i| (i * 13 + i / 97) as u8).collect();
+        // 4090 + 15 x 4094 = 65500 bytes before the end packet: one more intermediate fragment overflows 16 bits
+        let t = train(&pdu, &[], false, ptype, 12, &[4090, 4094, 4094, 4094, 4094, 4094, 4094, 4094, 4094, 4094, 4094, 4094, 4094, 4094, 4094, 4094]);
+        let n = t.len();
+        for p in &t[..n - 1] {
+            feed(out, &mut rx, &p.ser(), vec![]);
+        }
+        feed(out, &mut rx, &complete(&[1, 2, 3], &[5, 5, 5, 5, 5, 5], false, ptype).ser(), vec![]);
+        feed(out, &mut rx, &t[n - 2].ser(), vec![]); // the duplicate: 65500 + 4094 does not fit 16 bits
+        feed(out, &mut rx, &complete(&[4, 5, 6], &[5, 5, 5, 5, 5, 5], true, ptype).ser(), vec![]);
+        feed(out, &mut rx, &t[n - 1].ser(), vec![]);
+        probe(out, &mut rx, rng, 64, 12, size + 8);
+        rx.ev_drain(out);
+    }
 }
 
 // -------------------------------------------------------------- interleave
@@ -1236,6 +1276,8 @@ pub fn frames(out: &mut Out, seed: u64, thorough: bool) {
                 0 => 0,
                 1 => 1,
                 2 => 2,
+                // (every eighth session: more padding than the largest packet is long)
+                _ if fi % 8 == 5 => *rng.pick(&[4096usize, 4098, 5000, 9000]),
                 _ => rng.range(3, 30),
             };
             frame.extend(vec![0u8; padn]);
@@ -1503,9 +1545,9 @@ pub fn memfaults(out: &mut Out, seed: u64, thorough: bool) {
                 if !may_call(&seq[pos], op) {
                     continue;
                 }
-                for variant in 0..2u8 {
-                    if op == "save_frag" && variant == 1 {
-                        continue; // one way only
+                for variant in 0..3u8 {
+                    if (op == "save_frag" && variant >= 1) || (op != "provision" && variant == 2) {
+                        continue; // save_frag fails one way only; the third way is a refusal of provision_storage
                     }
                     run_memfault(out, &mut rng, "one_fault", nbuf, &seq, &[(pos, op, variant)]);
                 }
@@ -1536,7 +1578,8 @@ pub fn memfaults(out: &mut Out, seed: u64, thorough: bool) {
             if rng.chance(1, 3) {
                 let ops: Vec<&'static str> = MEM_OPS.iter().copied().filter(|o| may_call(&seq[i], o)).collect();
                 if !ops.is_empty() {
-                    arms.push((i, *rng.pick(&ops), rng.below(2) as u8));
+                    let op = *rng.pick(&ops);
+                    arms.push((i, op, rng.below(if op == "provision" { 3 } else { 2 }) as u8));
                 }
             }
         }
